@@ -552,7 +552,7 @@ pub fn replay_case(
                 // parameters immediately before (same thread, same entry point) - an acceptance must not
                 // leave anything behind that makes the altered token pass
                 // (also for the unaltered token about to be presented under another key / footer / assertion)
-                if p.exp != "ok" && ti < 2 && (pi < 16 || pi % 8 == 0 || p.k == case.mint.k) && ppr.name() == pr.name() {
+                if p.exp != "ok" && ti < 2 && (case.unaltered || pi < 16 || pi % 8 == 0 || p.k == case.mint.k) && ppr.name() == pr.name() {
                     let prime = present(
                         pr,
                         *layer,
